@@ -63,7 +63,7 @@ func c15Env(resourceIsFolder bool) (eval.Env, types.Request, types.EntityMap) {
 	// presence scenario: everything optional present, nothing present, or exactly one thing absent
 	nOpt := 11
 	nScen := 2 // quick: everything optional present / nothing present
-	if vrt.Thorough() {
+	if vrt.Thorough() && c15WideGuards {
 		nScen = nOpt + 2 // ... plus exactly one thing absent
 	}
 	scen := vrt.Choice("presence-scenario", nScen)
@@ -157,7 +157,7 @@ func c15Leaf(label string) ast.Node {
 		func() ast.Node { return ast.Resource() },
 		func() ast.Node { return ast.ExtensionCall("datetime", ast.String("2024-01-01")) },
 	}
-	if !vrt.Thorough() && c15Narrow {
+	if (!vrt.Thorough() || !c15WideOperands) && c15Narrow {
 		narrow := []int{0, 3, 7, 13, 14, 15, 17, 19}
 		return leaves[narrow[vrt.Choice(label, len(narrow))]]()
 	}
@@ -166,6 +166,13 @@ func c15Leaf(label string) ast.Node {
 
 // c15Narrow restricts the next leaf choice to a representative subset in the quick tier.
 var c15Narrow bool
+
+// c15Wide (thorough tier only) selects which dimensions take their full range on
+// this path: the full product (13 scenarios x 2 modes x 11 guards x 20 operators x
+// 20 x 20 leaves) is 4.5 million paths, so the thorough tier runs two families -
+// wide operands with the quick guards/scenarios, and wide guards/scenarios with the
+// quick operands.
+var c15WideOperands, c15WideGuards bool
 
 // guards that can make an optional access safe (or not)
 func c15Guard(label string) ast.Node {
@@ -182,7 +189,7 @@ func c15Guard(label string) ast.Node {
 		func() ast.Node { return ast.Resource().Is("Doc") },
 		func() ast.Node { return ast.Principal().Has("friend") },
 	}
-	if !vrt.Thorough() {
+	if !vrt.Thorough() || !c15WideGuards {
 		narrow := []int{0, 1, 4, 5}
 		return guards[narrow[vrt.Choice(label, len(narrow))]]()
 	}
@@ -227,12 +234,24 @@ var c15BinOps = []func(a, b ast.Node) ast.Node{
 	func(a, b ast.Node) ast.Node { return a.DecimalLessThan(b) },
 }
 
+func c15Family() {
+	c15WideOperands, c15WideGuards = false, false
+	if vrt.Thorough() {
+		if vrt.Choice("family", 2) == 0 {
+			c15WideOperands = true
+		} else {
+			c15WideGuards = true
+		}
+	}
+}
+
 // guard && (leaf op leaf): capabilities must cover exactly the guarded accesses.
 func VerifC15_GuardedBinary() {
+	c15Family()
 	v, mode := c15Validator()
 	g := c15Guard("guard")
 	ops := c15BinOps
-	if !vrt.Thorough() {
+	if !vrt.Thorough() || !c15WideOperands {
 		ops = []func(a, b ast.Node) ast.Node{ast.Node.Equal, ast.Node.LessThan, ast.Node.GreaterThanOrEqual, ast.Node.Add, ast.Node.And, ast.Node.In}
 	}
 	op := ops[vrt.Choice("op", len(ops))]
@@ -263,10 +282,11 @@ var c15UnOps = []func(a ast.Node) ast.Node{
 }
 
 func VerifC15_GuardedUnary() {
+	c15Family()
 	v, mode := c15Validator()
 	g := c15Guard("guard")
 	uops := c15UnOps
-	if !vrt.Thorough() {
+	if !vrt.Thorough() || !c15WideOperands {
 		uops = []func(a ast.Node) ast.Node{c15UnOps[0], c15UnOps[1], c15UnOps[3], c15UnOps[5], c15UnOps[6], c15UnOps[7], c15UnOps[10]}
 	}
 	op := uops[vrt.Choice("op", len(uops))]
@@ -290,6 +310,7 @@ func VerifC15_GuardedUnary() {
 // Joins: the least upper bound of two record / entity types (if-then-else
 // branches) must only expose what both sides guarantee.
 func VerifC15_Joins() {
+	c15WideOperands, c15WideGuards = false, vrt.Thorough()
 	v, mode := c15Validator()
 	recs := []func() ast.Node{
 		func() ast.Node { return ast.Context().Access("primary") },
